@@ -506,9 +506,59 @@ def r17e(ctx):
     ctx.floor("R17e", j, 1, "finiteness guards of make_distinct")
 
 
+def r17g(ctx):
+    m = ctx.model
+    ctx.rule("R17g", "candidates are told from 'none yet' by identity: the items of a search are arbitrary Bounded objects, and "
+                     "several define __len__ / __bool__ (EditCollection, SequenceEdit, the search itself), so a best candidate that "
+                     "is an empty collection is falsy; a truth-value test on best_match / a popped item treats it as absent and "
+                     "bounds() falls back to the initial interval - goal_test() then never holds")
+    q = m.need_class("IterativeTighteningSearch")
+    fl = m.files[m.classes[q][0]]
+    n = hits = 0
+    seen_ = set()
+    for name, (kind, f) in sorted(m.attrs[q].items()):
+        if kind != "def":
+            continue
+        n += 1
+        cands = set()
+        for a_ in walk_no_nested(f.node):
+            if isinstance(a_, (ast.Assign, ast.AnnAssign)) and a_.value is not None:
+                tgt = a_.targets[0] if isinstance(a_, ast.Assign) else a_.target
+                v = a_.value
+                src = self_attr(v) in ("best_match",) or \
+                    (isinstance(v, ast.Call) and (self_attr(v.func) in ("remove_best",) or call_name(v) == "next"
+                                                  or (isinstance(v.func, ast.Attribute) and v.func.attr in ("peek", "pop")))) or \
+                    (isinstance(v, ast.Attribute) and v.attr == "item")
+                if src and isinstance(tgt, ast.Name):
+                    cands.add(tgt.id)
+
+        def is_cand(e):
+            return (isinstance(e, ast.Name) and e.id in cands) or self_attr(e) == "best_match" or \
+                (isinstance(e, ast.Attribute) and e.attr == "item")
+        for t in walk_no_nested(f.node):
+            tests = [t.test] if isinstance(t, (ast.If, ast.While, ast.IfExp, ast.Assert)) else \
+                ([t.operand] if isinstance(t, ast.UnaryOp) and isinstance(t.op, ast.Not) else
+                 (list(t.values) if isinstance(t, ast.BoolOp) else []))
+            for test in tests:
+                o = test
+                while isinstance(o, ast.UnaryOp) and isinstance(o.op, ast.Not):
+                    o = o.operand
+                if is_cand(o) and id(o) not in seen_:
+                    seen_.add(id(o))
+                    hits += 1
+                    ctx.violation("R17g", fl, f"IterativeTighteningSearch.{name}", t, f"truthiness of {ast.unparse(o)}",
+                                  f"`{norm(test, 50)}` tests the candidate `{ast.unparse(o)}` by truth value: a candidate that is an empty "
+                                  f"collection (len 0) or whose __bool__ is False counts as 'no candidate'; use `is None`")
+    if not hits:
+        ctx.proved("R17g", fl, "IterativeTighteningSearch", None, "candidates tested by identity",
+                   f"{n} methods: no truth-value test on best_match, a popped or peeked item, or a local bound to one")
+    ctx.floor("R17g", n, 8, "methods of IterativeTighteningSearch scanned")
+
+
 def run(ctx):
     r17a(ctx)
     r17b(ctx)
+    r17g(ctx)
     r17c(ctx)
     r17d(ctx)
     r17e(ctx)
